@@ -35,6 +35,95 @@ CONTRACTS = [
 ]
 
 
+# ---------------------------------------------------------------------------------------------------------------
+# The re-send set as a class invariant of the Mailbox machine: _pending_outbound == submitted - echoed.  The three
+# inputs that touch it are verified THROUGH THE REAL TRANSITION TABLE (state set first, then the row's outputs, real
+# bodies): a row that loses its output, an output moved elsewhere, or a body that retires the wrong entries fails here.
+MB = "wormhole/_mailbox.py:Mailbox."
+MB_FIELDS = {"__state": "state", "_pending_outbound": "dict[str,bytes]", "_mailbox": "opt[str]", "_mood": "opt[str]",
+             "_side": "str", "_processed": "set[str]",
+             "_RC": "obj[IRendezvousConnector]", "_N": "obj[INameplate]", "_O": "obj[IOrder]", "_T": "obj[ITerminator]"}
+OPEN_OR_EARLIER = "'S0A', 'S0B', 'S1A', 'S2A', 'S2B'"
+OTHERS_KEPT = ("forall(lambda p: implies(p != phase, (p in self._pending_outbound) == (p in old(self._pending_outbound)) and "
+               "implies(p in self._pending_outbound, self._pending_outbound[p] == old(self._pending_outbound)[p])), 'str')")
+ALL_KEPT = ("forall(lambda p: (p in self._pending_outbound) == (p in old(self._pending_outbound)) and "
+            "implies(p in self._pending_outbound, self._pending_outbound[p] == old(self._pending_outbound)[p]), 'str')")
+
+MB_INV = ("(not in_state(self, 'S1A', 'S2A', 'S2B', 'S3A', 'S3B') or bool(self._mailbox)) and "
+          "(not in_state(self, 'S3A', 'S3B') or bool(self._mood))")
+
+
+def mbc(name, params, **kw):
+    """a Mailbox input under contract: the representation invariant (mailbox id known from S1 on, mood recorded while
+    closing - what the asserts in RC_tx_open / RC_tx_close rely on) is assumed at entry and re-established at exit, so
+    it is an invariant of the machine, not an assumption"""
+    kw["requires"] = [MB_INV] + list(kw.get("requires", []))
+    kw["ensures"] = list(kw.get("ensures", [])) + [("representation-invariant-kept", MB_INV)]
+    return Contract(MB + name, props=[PROP], params=params, self_fields=MB_FIELDS, replay={"driver": "machine_replay:run"}, **kw)
+
+
+MACHINE_CONTRACTS = [
+    mbc("add_message", {"phase": "str", "body": "bytes"},
+             modifies=["__state", "_pending_outbound"],
+             ensures=[("remembered-until-echoed-while-the-mailbox-is-not-closing",
+                       f"implies(old(in_state(self, {OPEN_OR_EARLIER})), phase in self._pending_outbound and "
+                       "self._pending_outbound[phase] == body)"),
+                      ("other-pending-messages-kept", OTHERS_KEPT),
+                      ("submitted-at-once-iff-the-mailbox-is-open-on-this-connection",
+                       "implies(old(in_state(self, 'S2B')), bcall_names() == ['tx_add'] and bcall_arg('tx_add', 0, 0) == phase and "
+                       "bcall_arg('tx_add', 0, 1) == body) and implies(not old(in_state(self, 'S2B')), len(bcall_names()) == 0)"),
+                      ("state-kept", "state_index(self) == old(state_index(self))")],
+             note="every message handed to the Mailbox before it starts closing joins the re-send set (so `connected` re-submits "
+                  "it, C09's _drain contract) and goes out at once only if the mailbox is open on the current connection"),
+    mbc("rx_message_ours", {"phase": "str", "body": "bytes"},
+             modifies=["__state", "_pending_outbound"],
+             raises_exactly={"NoTransition": "in_state(self, 'S0A', 'S0B', 'S1A', 'S2A', 'S3A')"},
+             ensures=[("the-echoed-phase-leaves-the-re-send-set-while-open",
+                       "implies(old(in_state(self, 'S2B')), phase not in self._pending_outbound)"),
+                      ("nothing-else-leaves-it", OTHERS_KEPT),
+                      ("nothing-sent", "len(bcall_names()) == 0"), ("state-kept", "state_index(self) == old(state_index(self))")],
+             note="only the server's echo of OUR message of that phase retires it"),
+    mbc("rx_message_theirs", {"side": "str", "phase": "str", "body": "bytes"}, modifies=["__state", "_processed"],
+             raises_exactly={"NoTransition": "in_state(self, 'S0A', 'S0B', 'S1A', 'S2A', 'S3A')"},
+             ensures=[("a-peer-message-retires-nothing", ALL_KEPT),
+                      ("state-kept", "state_index(self) == old(state_index(self))")],
+             note="the peer's message of the same phase name says nothing about whether the server has ours"),
+    mbc("lost", {}, modifies=["__state"],
+             raises_exactly={"NoTransition": "in_state(self, 'S0A', 'S1A', 'S2A', 'S3A')"},
+             ensures=[("nothing-forgotten-on-connection-loss", ALL_KEPT), ("nothing-sent", "len(bcall_names()) == 0")]),
+    mbc("connected", {}, modifies=["__state"],
+             raises_exactly={"NoTransition": "in_state(self, 'S0B', 'S2B', 'S3B')"},
+             ensures=[("re-send-set-untouched-by-reconnecting", ALL_KEPT),
+                      ("open-mailbox-is-reopened-first",
+                       "implies(old(in_state(self, 'S1A', 'S2A')), len(bcall_names()) >= 1 and bcall_names()[0] == 'tx_open' and "
+                       "bcall_arg('tx_open', 0, 0) == self._mailbox and bcalls('tx_open') == 1 and bcalls('tx_close') == 0)")],
+             note="_drain is applied through its contract (proved above on the real loop)"),
+    mbc("got_mailbox", {"mailbox": "str"}, requires=["len(mailbox) > 0"], modifies=["__state", "_mailbox"],
+        raises_exactly={"NoTransition": "not in_state(self, 'S0A', 'S0B')"},
+        ensures=[("re-send-set-untouched", ALL_KEPT), ("mailbox-recorded", "self._mailbox == mailbox")],
+        note="the mailbox id comes from the server's `claimed` reply (non-empty for a conformant server)"),
+    mbc("close", {"mood": "str"}, requires=["len(mood) > 0"], modifies=["__state", "_mood"],
+        raises_exactly={"NoTransition": "in_state(self, 'S3A')"},
+        ensures=[("re-send-set-untouched", ALL_KEPT),
+                 ("mood-recorded-when-a-close-has-to-be-sent", "implies(old(in_state(self, 'S2A', 'S2B')), self._mood == mood)")],
+        note="Boss passes one of the five mood literals"),
+    mbc("rx_closed", {}, modifies=["__state"], raises_exactly={"NoTransition": "not in_state(self, 'S3B')"},
+        ensures=[("re-send-set-untouched", ALL_KEPT)]),
+]
+
+
+def regf_machine():
+    from pyvc.automat import AutomatSupport
+    reg = regf()
+    register_classes(reg, ["wormhole/_mailbox.py"])
+    reg.automat = AutomatSupport()
+    reg.automat.notransition_raises = True
+    for c in MACHINE_CONTRACTS:
+        reg.contracts[c.target] = c
+    reg.spec_funcs["state_index"] = lambda it, o: VInt(it.force(o).fields["__state"].z)
+    return reg
+
+
 def regf():
     reg = make_registry()
     install_trace_funcs(reg)
@@ -143,7 +232,12 @@ def tasks():
     import os
     from pyvc.runner import FuncTask
     nocl = (not CLUSTER_READY) or bool(os.environ.get('VERIF_NO_CLUSTER'))
-    return [ContractTask(c, regf) for c in CONTRACTS] + [FuncTask("reconnect-tables", reconnect_tables_task, True, "data")] + \
+    from . import c03
+    shared = [t for t in c03.tasks() if getattr(t, "contract", None) is not None and
+              t.contract.target.endswith(("Mailbox.queue", "Mailbox.dequeue", "Mailbox.RC_tx_add", "Mailbox.rx_message",
+                                          "Mailbox.N_release_and_accept"))]
+    return [ContractTask(c, regf) for c in CONTRACTS] + [ContractTask(c, regf_machine) for c in MACHINE_CONTRACTS] + shared + \
+        [FuncTask("reconnect-tables", reconnect_tables_task, True, "data")] + \
         ([] if nocl else [ClusterTask("mailbox-cluster", "props.mailbox", "engine", select, "mailbox_history:search")])
 
 
